@@ -174,12 +174,30 @@ func (c *c20Chain) GetUtxo(op *wire.OutPoint, _ []byte, _ uint32,
 // ---------------------------------------------------------------------------
 // graph
 
+// c20GraphView is what the engine needs from the graph the gossiper writes
+// to: the ChannelGraphSource handed to the gossiper plus read-back.
+type c20GraphView interface {
+	graph.ChannelGraphSource
+
+	snap() *c20Snap
+	info(scid uint64) (models.ChannelEdgeInfo, bool)
+	policy(scid uint64, dir int) (models.ChannelEdgePolicy, bool)
+	node(k route.Vertex) (models.Node, int)
+	shutdown()
+}
+
 // c20Graph is the fixture's mockGraphSource with AddNode as an upsert.
 type c20Graph struct {
 	*mockGraphSource
 }
 
-var _ graph.ChannelGraphSource = (*c20Graph)(nil)
+var _ c20GraphView = (*c20Graph)(nil)
+
+func (g *c20Graph) shutdown() {}
+
+// c20ShellNode is the snapshot rendering of a node that exists only as the
+// endpoint of a channel (no announcement stored).
+const c20ShellNode = "SHELL"
 
 func (g *c20Graph) AddNode(_ context.Context, node *models.Node,
 	_ ...batch.SchedulerOption) error {
@@ -349,7 +367,7 @@ func (g *c20Graph) node(k route.Vertex) (models.Node, int) {
 
 type c20Ctx struct {
 	g     *AuthenticatedGossiper
-	graph *c20Graph
+	graph c20GraphView
 	chain *c20Chain
 
 	bmu   sync.Mutex
@@ -372,10 +390,13 @@ var c20SelfPriv, _ = btcec.PrivKeyFromBytes([]byte(
 // waiting-proof store is only touched by AnnounceSignatures, which this
 // check never sends.
 func c20NewCtx(t *testing.T, wps *channeldb.WaitingProofStore,
-	chain *c20Chain, height uint32) (*c20Ctx, error) {
+	chain *c20Chain, height uint32, gv c20GraphView) (*c20Ctx, error) {
 
+	if gv == nil {
+		gv = &c20Graph{newMockRouter(t, height)}
+	}
 	ctx := &c20Ctx{
-		graph: &c20Graph{newMockRouter(t, height)},
+		graph: gv,
 		chain: chain,
 	}
 	selfDesc := &keychain.KeyDescriptor{
@@ -465,6 +486,7 @@ func c20NewCtx(t *testing.T, wps *channeldb.WaitingProofStore,
 
 func (c *c20Ctx) stop() {
 	_ = c.g.Stop()
+	c.graph.shutdown()
 }
 
 // c20Pending is a message handed to ProcessRemoteAnnouncement whose result
